@@ -33,14 +33,14 @@ CLAIMED = {
 PENDING = []
 # dimensions added later, driven by the seeded "unusual but legal usage" changes (DESIGN.md 12)
 ADDED = {
- "C10": "Added later: job closures with observable destructors that enqueue continuations, jobs ending with a caught std::exception, up to three terminating jobs, jobs that own an inner pool and wait for it, pools of up to 6 workers.",
+ "C10": "Added later: job closures with observable destructors that enqueue continuations, jobs ending with a caught std::exception, up to three terminating jobs, jobs that own an inner pool and wait for it, pools of up to 6 workers, a rare wide mode in which one or two jobs on a pool of one or two workers enqueue 129 to 4100 children.",
  "C11": "Added later: requests for zero tokens, up to 6 threads and 8 generations, the team moving on to a second barrier object, actions that read step() of their barrier.",
  "C12": "Added later: handles that live inside managed objects (link / advance / push_front histories, never a cycle), inspection from inside the dying object (no handle variable still points to it; a solely owned successor is gone the moment its handle lets go), make_counting with a self-registering constructor, a derived class whose counted base is not its first base, last owner letting go through reset() under the no-op deleter, concurrent unify/swap and threads copying the single handle.",
  "C06": "Added later: 24/32 and SIZE_MAX thread counts, std::deque and reverse-iterator ranges, a comparator with run-time state and an unsynchronised call counter (a shared instance is a race; moved-from arguments are recorded), element types with an adversarial operator<.",
- "C07": "Added later: 17-48 short sequences, sequences in std::deque, a second trivially copyable element type, an element type that knows its own address (assignment to / copy from raw storage), a comparator with an unsynchronised call counter, adversarial operator<.",
+ "C07": "Added later: 17-48 short sequences, sequences in std::deque, a second trivially copyable element type, an element type that knows its own address (assignment to / copy from raw storage), a comparator with an unsynchronised call counter, adversarial operator<, histories of two calls of the same entry point from one fresh thread (an earlier partial merge with another thread count and splitting, then the merge under test).",
  "C04": "Added later: 19 variants incl. the char front ends, thorough-tier runs with the default thresholds (> 1 Mi strings) and of 65535..65537 strings.",
- "C16": "Added later: allocator instances that compare unequal, pushes of references to own elements, copies of storage-less buffers, an element type on which braces and parentheses disagree and which overloads operator&, emplace with constructor arguments, SimpleVector<size_t> with resize(v[k]). Storage blocks never returned are counted, not judged.",
- "C17": "Added later: LRU caches with heap-owning keys and values and with an allocator instance, put(k, get(k)) and erase(get(k)), spines of 65+ equal keys, node pointers kept over insertions, traversal with a collecting function object. LRU nodes never returned are counted, not judged.",
+ "C16": "Added later: allocator instances that compare unequal, pushes of references to own elements, copies of storage-less buffers, an element type on which braces and parentheses disagree and which overloads operator&, emplace with constructor arguments, SimpleVector<size_t> with resize(v[k]), traversal of the ledgered SimpleVector through begin()/end()/cbegin()/cend()/data() after every operation. Storage blocks never returned are counted, not judged.",
+ "C17": "Added later: LRU caches with heap-owning keys and values and with an allocator instance, put(k, get(k)) and erase(get(k)), spines of 65+ equal keys, node pointers kept over insertions, traversal with a collecting function object, splay trees built with a run-time (descending) comparator and an allocator instance. LRU nodes never returned are counted, not judged.",
  "C02": "Added later: 13 instantiations incl. tlx::BTree used directly and a comparator with run-time state, big trees (bulk loads of up to 400 keys, long erase phases), allocator instances that compare unequal, keys whose move empties the source, arguments that alias the tree (insert(*it), erase(it.key())), construction and assignment from rvalues, bulk_load from deques and reverse iterators.",
 }
 
